@@ -3,9 +3,10 @@
 from __future__ import annotations
 
 import ast
+import re
 
 from ..absval import Interp, Obj, RaiseSignal, Sym, Unknown
-from ..model import AnchorMissing, Class, Func, Undecided, dotted, norm, walk_no_nested
+from ..model import AnchorMissing, Class, Func, Program, Undecided, dotted, norm, walk_no_nested
 from ..report import Ctx
 from ..variants import Variant
 from .common import make_metric_objs
@@ -17,7 +18,7 @@ from .fsrun import FS
 from .resultrun import Tagged, metric_objs
 
 INFO = {
-    "explanation": "Rounds 4/5: (R15.9) a plain metric call after a call with per-call options hands the kernel the same arguments as on an untouched metric object; (R15.5) parallel map helpers are verified order preserving on 0..5 symbolic items for worker counts 1,2,3,5 and None with 1,2,3,16 cores; R15.3 compares the whole reachable state of evaluators; R15.6 is definite only for state derived from call arguments, the aggregator's cache-like state is decided by R16.8. (R15.1) ALIAS/EFFECT: evaluate (three input types, with and without class groups), panoptic_evaluate, the result constructor and the metric call are interpreted with abstract arrays that alias exactly like numpy arrays; every in-place sink (masked/sliced store, augmented assignment, out=, sort/fill/put/copyto) on a buffer that aliases a caller array is reported; (R15.2) evaluate is interpreted for every combination of the constructor's and the per-call save_group_times flag - no path reads an unassigned local; (R15.3) the evaluator's attributes are identical before and after evaluate, constructors do not modify list arguments (incl. shared default lists), default arguments are identical before and after all runs, and constructing an aggregator (with log_times) leaves the evaluator's advertised metric keys untouched; (R15.4) the arguments of the pipeline call are identical for every combination of result_all / save_group_times / log_times / verbose; (R15.5) worker pools are consumed through order-preserving map/starmap only; (R15.6) configuration objects write their attributes only in __init__ and the tabled setters; (R15.7) module globals written on evaluation paths are on an allow-list with reasons. Further: R15.8 (ALIAS/EFFECT as a flow-sensitive may-alias dataflow with return and written-parameter summaries; effects reported at the public boundary), R15.6 extended to the aggregator, R15.7 to module-level containers reached through aliases. Round 6: (R15.6, callees) fixpoint over the functions that modify a list/dict parameter in place (list/dict methods, +=, item stores, handing it on); no method hands a list attribute to one; (R15.3, constructors) no __init__ / dataclass __post_init__ modifies a container argument in place; (R15.7) warn-once registries (module containers whose every read only guards warnings/log calls/their own insertion) are recognised as report-only; R15.7 is the frame condition of every abstract run and is checked under every property; (R15.5) map helpers are found by how their parameters are used and are also verified with a pool that cannot be started. Round 7: (R15.3, shared defaults) a default argument that is an object made when the function is defined (literal or call) is not modified in place, also not through a component or an accessor that hands out self.<attr>. Round 8: item stores into a table the object keeps count as state writes; per-call scratch state (an attribute its owner method resets to an empty value before any read; private helpers included), editing methods that no evaluation / save / load path calls, and lookup tables filled on demand (the stored value is computed from what the key is computed from, never from the table's earlier content) do not; (R15.8) metric kernels and what they call do not write into the masks they receive. Round 9: (R15.10) an attribute computed from other attributes when the object is built is recomputed (or updated in place) by every later method that rewrites one of those; (R15.11) closures made in a loop and kept for later do not read the loop variable when called (message-only uses excepted); R15.6 follows a local alias of a container the object keeps (stored, or computed once by cached_property - a plain property builds anew) and scans the helper classes the aggregator instantiates; a settings object handed to the pipeline is read as the parameters it bundles, the mapping taken from the callee's own construction of the bundle.",
+    "explanation": "Rounds 4/5: (R15.9) a plain metric call after a call with per-call options hands the kernel the same arguments as on an untouched metric object; (R15.5) parallel map helpers are verified order preserving on 0..5 symbolic items for worker counts 1,2,3,5 and None with 1,2,3,16 cores; R15.3 compares the whole reachable state of evaluators; R15.6 is definite only for state derived from call arguments, the aggregator's cache-like state is decided by R16.8. (R15.1) ALIAS/EFFECT: evaluate (three input types, with and without class groups), panoptic_evaluate, the result constructor and the metric call are interpreted with abstract arrays that alias exactly like numpy arrays; every in-place sink (masked/sliced store, augmented assignment, out=, sort/fill/put/copyto) on a buffer that aliases a caller array is reported; (R15.2) evaluate is interpreted for every combination of the constructor's and the per-call save_group_times flag - no path reads an unassigned local; (R15.3) the evaluator's attributes are identical before and after evaluate, constructors do not modify list arguments (incl. shared default lists), default arguments are identical before and after all runs, and constructing an aggregator (with log_times) leaves the evaluator's advertised metric keys untouched; (R15.4) the arguments of the pipeline call are identical for every combination of result_all / save_group_times / log_times / verbose; (R15.5) worker pools are consumed through order-preserving map/starmap only; (R15.6) configuration objects write their attributes only in __init__ and the tabled setters; (R15.7) module globals written on evaluation paths are on an allow-list with reasons. Further: R15.8 (ALIAS/EFFECT as a flow-sensitive may-alias dataflow with return and written-parameter summaries; effects reported at the public boundary), R15.6 extended to the aggregator, R15.7 to module-level containers reached through aliases. Round 6: (R15.6, callees) fixpoint over the functions that modify a list/dict parameter in place (list/dict methods, +=, item stores, handing it on); no method hands a list attribute to one; (R15.3, constructors) no __init__ / dataclass __post_init__ modifies a container argument in place; (R15.7) warn-once registries (module containers whose every read only guards warnings/log calls/their own insertion) are recognised as report-only; R15.7 is the frame condition of every abstract run and is checked under every property; (R15.5) map helpers are found by how their parameters are used and are also verified with a pool that cannot be started. Round 7: (R15.3, shared defaults) a default argument that is an object made when the function is defined (literal or call) is not modified in place, also not through a component or an accessor that hands out self.<attr>. Round 8: item stores into a table the object keeps count as state writes; per-call scratch state (an attribute its owner method resets to an empty value before any read; private helpers included), editing methods that no evaluation / save / load path calls, and lookup tables filled on demand (the stored value is computed from what the key is computed from, never from the table's earlier content) do not; (R15.8) metric kernels and what they call do not write into the masks they receive. Round 9: (R15.10) an attribute computed from other attributes when the object is built is recomputed (or updated in place) by every later method that rewrites one of those; (R15.11) closures made in a loop and kept for later do not read the loop variable when called (message-only uses excepted); R15.6 follows a local alias of a container the object keeps (stored, or computed once by cached_property - a plain property builds anew) and scans the helper classes the aggregator instantiates; a settings object handed to the pipeline is read as the parameters it bundles, the mapping taken from the callee's own construction of the bundle. Round 10: (R15.12, every property, only when a run would otherwise end undecided) a private attribute read through self in the class the undecided construct sits in, which nothing that can act on such an object ever binds (no store in the class's ancestors or descendants or through a non-self name anywhere, no class-level name, no reflective access), is reported as the definite reason: AttributeError on every input reaching the read.",
     "trusted_base": ["numpy aliasing model of DESIGN appendix A.3 (copy/astype/comparisons fresh; basic slicing views)", "multiprocessing.Pool.map/starmap return results in input order", "cc3d/scipy/skimage do not write their input arrays"],
     "assumptions": [],
     "not_decided": ["OS-level nondeterminism of multiprocessing", "floating-point reproducibility of the kernels across worker processes"],
@@ -1407,3 +1408,118 @@ VARIANTS = [
     Variant("C15-t-list-slice", "R15.3", "twin", [(_A, "self.__evaluation_metrics = list(panoptica_evaluator.resulting_metric_keys)", "self.__evaluation_metrics = panoptica_evaluator.resulting_metric_keys[:]")]),
     Variant("C15-t-np-array", "R15.1", "twin", [(_L, "        array = array.copy()\n        array[np.isin(array, self.value_labels, invert=True)] = 0", "        array = np.array(array)\n        array[np.isin(array, self.value_labels, invert=True)] = 0")]),
 ]
+
+
+_OPAQUE_BASES_OK = {"object", "ABC", "abc.ABC", "Enum", "enum.Enum", "Generic", "Protocol", "ABCMeta"}
+_REFLECTIVE_NAMES = {"setattr", "vars", "delattr"}
+_REFLECTIVE_ATTRS = {"__dict__", "__setattr__", "__setstate__"}
+_REFLECTIVE_METHODS = {"__getattr__", "__setattr__", "__setstate__", "__getattribute__"}
+
+
+def unbound_private_attrs(prog, classes, trace=None) -> list:
+    """R15.12: private attributes `self._x` that a method of one of `classes` reads although nothing that could act on
+    an instance of the class ever binds an attribute of that name: no `<obj>._x` store / augmented / annotated / loop /
+    with / del target anywhere in the package except `self._x` stores inside classes outside the class's family (those
+    bind the other class's attribute), no class-level name, method or property of that name in the ancestors or
+    descendants; and nothing could bind it reflectively: no `__getattr__` / `__setattr__` / `__setstate__` /
+    `__getattribute__` in the family, no `setattr` / `vars` / `__dict__` inside a family class or in any module-level
+    function of the package, the name never spelt as a string, every base class resolved or a plain library base, no
+    `try` in the reading method.  Such a read raises AttributeError for every input that reaches it.
+    Returns [(class, method Func, ast.Attribute)]."""
+    strings = set()
+    stores = []
+    in_class: dict[int, Class] = {}
+    for k in prog.classes.values():
+        for y in ast.walk(k.node):
+            in_class.setdefault(id(y), k)
+    reflective_free = False  # reflective access outside any class (module-level helpers may act on any object)
+    reflective_classes = set()
+    for m in prog.modules.values():
+        for x in ast.walk(m.tree):
+            if isinstance(x, ast.Attribute) and isinstance(x.ctx, (ast.Store, ast.Del)):
+                stores.append(x)
+            elif isinstance(x, ast.Constant) and isinstance(x.value, str):
+                strings.add(x.value)
+            if (isinstance(x, ast.Name) and x.id in _REFLECTIVE_NAMES) or (isinstance(x, ast.Attribute) and x.attr in _REFLECTIVE_ATTRS):
+                k = in_class.get(id(x))
+                if k is None:
+                    reflective_free = True
+                else:
+                    reflective_classes.add(k.qual)
+    out = []
+    if reflective_free:
+        if trace is not None:
+            trace.append("reflective access at module level")
+        return out
+    for c in classes:
+        family = list(c.mro()) + list(c.all_subclasses())
+        fq = {k.qual for k in family}
+        if any(prog.resolve_class_expr(k.module, b) is None and (dotted(b) or "?") not in _OPAQUE_BASES_OK for k in family for b in k.base_exprs):
+            if trace is not None:
+                trace.append(f"{c.qual}: unresolved base")
+            continue
+        if fq & reflective_classes or any(n in k.methods for k in family for n in _REFLECTIVE_METHODS):
+            if trace is not None:
+                trace.append(f"{c.qual}: reflective family")
+            continue
+        stored = set()
+        for x in stores:
+            k = in_class.get(id(x))
+            if k is not None and k.qual not in fq and isinstance(x.value, ast.Name):
+                f_ = next((mm for mm in k.methods.values() if mm.self_name == x.value.id and any(y is x for y in ast.walk(mm.node))), None)
+                if f_ is not None:
+                    continue  # `self._x = ...` of an unrelated class
+            stored.add(x.attr)
+        class_names = set()
+        for k in family:
+            class_names |= set(k.methods)
+            for st in ast.walk(k.node):
+                if isinstance(st, ast.Name) and isinstance(st.ctx, ast.Store):
+                    class_names.add(st.id)
+        for meth in c.methods.values():
+            me = meth.self_name
+            if not me or meth.is_classmethod:
+                continue
+            if any(isinstance(t, ast.Try) for t in ast.walk(meth.node)):
+                continue
+            for x in ast.walk(meth.node):
+                if isinstance(x, ast.Attribute) and isinstance(x.ctx, ast.Load) and isinstance(x.value, ast.Name) and x.value.id == me and x.attr.startswith("_") and not x.attr.endswith("__"):
+                    a = x.attr
+                    if a in stored or c.mangle(a) in stored or a in class_names or a in strings:
+                        continue
+                    out.append((c, meth, x))
+    return out
+
+
+def diagnose_undecided(ctx: Ctx):
+    """Run only when a check would otherwise end undecided: if the class an undecided obligation sits in reads a private
+    attribute that nothing ever binds (R15.12), the run could not be modelled *because* the code cannot run - a definite
+    violation (AttributeError on every input reaching the read), not a modelling gap."""
+    prog = ctx.prog
+    src_bad = "class A:\n    def __init__(self, m, t):\n        self._t = t\n    def run(self, x):\n        return self._m.f(x, self._t)\n\nclass B:\n    def __init__(self, m):\n        self._m = m\n"
+    src_ok = src_bad.replace("        self._t = t\n", "        self._t = t\n        self._m = m\n", 1)
+    got = []
+    for src in (src_bad, src_ok):
+        p_ = Program({"panoptica/__init__.py": "", "panoptica/p.py": src})
+        got.append(sorted((c.name, x.attr) for c, _m, x in unbound_private_attrs(p_, list(p_.classes.values()))))
+    if got != [[("A", "_m")], []]:
+        return  # the built-in examples do not behave: the diagnosis is not used (the check stays undecided)
+    classes = []
+    for o in ctx.undecideds:
+        qual = o.where.split(" ", 1)[1] if " " in o.where else ""
+        tail = qual.split(":")[-1]
+        c = prog.try_cls(qual.rsplit(".", 1)[0]) if "." in tail else None
+        if c is not None and c not in classes:
+            classes.append(c)
+        # ... or the interpreter names the object whose attribute it could not find
+        m_ = re.search(r"attribute \w+ of (\w+) object unknown", o.desc or "")
+        if m_:
+            for k in prog.classes.values():
+                if k.name == m_.group(1) and k not in classes:
+                    classes.append(k)
+    seen = set()
+    for c, meth, x in unbound_private_attrs(prog, classes):
+        if (c.qual, x.attr) in seen:
+            continue
+        seen.add((c.qual, x.attr))
+        ctx.violated("R15.12", meth, x, f"{c.qual}.{x.attr}", f"`self.{x.attr}` is read by {c.name}.{meth.name} but nothing ever binds an attribute of that name on such an object: AttributeError for every input that reaches the read", {"class": c.qual, "attribute": x.attr})
